@@ -265,6 +265,10 @@ impl<'a> P<'a> {
                 self.i = at;
                 return self.err("XML declaration without version");
             }
+            if !xml_decl_ok(&data) {
+                self.i = at;
+                return self.err("malformed XML declaration");
+            }
             Ok(Ev::Decl(data))
         } else {
             Ok(Ev::PI { target, data })
@@ -474,6 +478,42 @@ impl<'a> P<'a> {
         }
         Ok(out)
     }
+}
+
+/// XMLDecl ::= '<?xml' VersionInfo EncodingDecl? SDDecl? S? '?>'   (`data` is what follows the target)
+fn xml_decl_ok(data: &str) -> bool {
+    fn pseudo<'a>(s: &'a str, name: &str) -> Option<(&'a str, &'a str)> {
+        // S name Eq quoted-value ; returns (value, rest)
+        let t = s.trim_start_matches([' ', '\t', '\r', '\n']);
+        if t.len() == s.len() {
+            return None; // white space is required before each pseudo-attribute
+        }
+        let t = t.strip_prefix(name)?;
+        let t = t.trim_start_matches([' ', '\t', '\r', '\n']).strip_prefix('=')?.trim_start_matches([' ', '\t', '\r', '\n']);
+        let q = t.chars().next().filter(|c| *c == '"' || *c == '\'')?;
+        let end = t[1..].find(q)?;
+        Some((&t[1..1 + end], &t[2 + end..]))
+    }
+    // (the text after the target starts with the white space that follows it)
+    let data = format!(" {}", data.trim_start_matches([' ', '\t', '\r', '\n']));
+    let Some((ver, mut rest)) = pseudo(&data, "version") else { return false };
+    if !(ver.starts_with("1.") && ver.len() > 2 && ver[2..].bytes().all(|b| b.is_ascii_digit())) {
+        return false;
+    }
+    if let Some((enc, r)) = pseudo(rest, "encoding") {
+        let mut ch = enc.chars();
+        if !(ch.next().is_some_and(|c| c.is_ascii_alphabetic()) && ch.all(|c| c.is_ascii_alphanumeric() || matches!(c, '.' | '_' | '-'))) {
+            return false;
+        }
+        rest = r;
+    }
+    if let Some((sd, r)) = pseudo(rest, "standalone") {
+        if sd != "yes" && sd != "no" {
+            return false;
+        }
+        rest = r;
+    }
+    rest.trim_matches([' ', '\t', '\r', '\n']).is_empty()
 }
 
 /// Parse a complete XML document (prolog, exactly one root element, trailing misc).
